@@ -597,6 +597,15 @@ pub fn run_ops(ctx: &Arc<Ctx>, ops: &[Node], thread: usize) {
                 rt::emit(&format!("ret {} ok", node.id));
             }
             Op::Yield => rt::yield_now(),
+            Op::WaitCount(n) => {
+                // the thread waits, without touching the API, until `n` asynchronous operations have completed: work on one
+                // object must not depend on a pool thread that is blocked in a job of another object (C10)
+                ctx.status.lock().unwrap().insert(thread, (node.id, "waitcount", usize::MAX));
+                let mut d = ctx.done.lock().unwrap();
+                while *d < *n { d = ctx.done_cv.wait(d).unwrap(); }
+                drop(d);
+                ctx.status.lock().unwrap().remove(&thread);
+            }
             Op::PipeIn(o, c) | Op::Pipe(o, c, _) => {
                 let Some(Obj::D(d)) = ctx.obj(*o) else { ctx.stat("skipped-dropped"); continue };
                 let Some(rx) = ctx.receivers[*c].lock().unwrap().take() else { continue };
@@ -965,6 +974,7 @@ pub fn classify_deadlock(ctx: &Arc<Ctx>) -> Failure {
             "await-suspend" => { add("C13"); }
             "despawn" => { add("C17"); }
             "wait-kept-futures" => { add("C06"); add("C03"); add("C07"); }
+            "waitcount" => { add("C10"); add("C03"); }
             "next" => { add("C12"); }
             "pipe" | "pipein" => { add("C11"); add("C04"); }
             "desync" | "fdesync" | "after" | "fsync" | "trysync" | "suspend" => { add("C03"); if *kind == "trysync" { add("C09"); } }
